@@ -119,7 +119,8 @@ impl TryFrom<&Value> for Number {
 
 impl Hash for Number {
     fn hash<H: std::hash::Hasher>(&self, state: &mut H) {
-        self.value.to_bits().hash(state);
+        // +0.0 and -0.0 are equal, so they have to hash alike
+        (self.value + 0.0).to_bits().hash(state);
         self.unit.hash(state);
     }
 }
